@@ -19,19 +19,62 @@ def traceOk : Pipe → List PipeOp → Bool
 /-- responses were written in request order, each index once: indices 0,1,…,n-1 -/
 def InOrderOnce (written : List (Nat × Bytes)) (n : Nat) : Prop := written.map (·.1) = List.range n
 
-/-- the wire form of a request with a declared body length, as a client would write it -/
+/-! ### well-formed requests on the wire (what a client writes) -/
+
+/-- decimal digits of `n`, most significant first -/
+def decimal (n : Nat) : Bytes :=
+  if n < 10 then [UInt8.ofNat (48 + n)] else decimal (n / 10) ++ [UInt8.ofNat (48 + n % 10)]
+termination_by n
+decreasing_by omega
+
+/-- the wire form of a request with a declared body length -/
 structure WireReq where
   method : Bytes
   target : Bytes
   version : Bytes
-  headers : List (Bytes × Bytes)    -- besides Content-Length
+  headers : List (Bytes × Bytes)    -- besides Content-Length, which `encode` appends
   body : Bytes
+deriving Repr
 
-def decimal (n : Nat) : Bytes := ascii (toString n)
+def hdrLine (kv : Bytes × Bytes) : Bytes := kv.1 ++ 58 :: 32 :: (kv.2 ++ [13, 10])
 
+def contentLengthHdr (w : WireReq) : Bytes × Bytes := (ascii "Content-Length", decimal w.body.length)
+
+/-- `METHOD SP target SP version CRLF (key ": " value CRLF)* "Content-Length: " n CRLF CRLF body` -/
 def WireReq.encode (w : WireReq) : Bytes :=
-  w.method ++ [32] ++ w.target ++ [32] ++ w.version ++ [13, 10] ++
-  (w.headers.map fun (k, v) => k ++ [58, 32] ++ v ++ [13, 10]).flatten ++
-  ascii "Content-Length: " ++ decimal w.body.length ++ [13, 10, 13, 10] ++ w.body
+  w.method ++ 32 :: (w.target ++ 32 :: (w.version ++ 13 :: 10 ::
+    ((w.headers.map hdrLine).flatten ++ (hdrLine (contentLengthHdr w) ++ 13 :: 10 :: w.body))))
+
+/-- non-empty, no space, no CR -/
+def tokenOk (b : Bytes) : Bool := !b.isEmpty && b.all (· != 32) && b.all (· != 13)
+
+/-- header as a client prints it: key without ':' / CR / surrounding spaces and different from
+Content-Length; value non-empty, without CR and without surrounding spaces -/
+def hdrOk (kv : Bytes × Bytes) : Bool :=
+  kv.1.all (· != 58) && kv.1.all (· != 13) && strip kv.1 == kv.1 && kv.1 != ascii "Content-Length" &&
+  !kv.2.isEmpty && kv.2.all (· != 13) && strip kv.2 == kv.2 && kv.2.head? != some 32
+
+/-- decidable well-formedness: a known method, a target the URL parser accepts, a known
+version, printable headers, a body length that fits `size_t` -/
+def WireReq.wellFormed (w : WireReq) : Bool :=
+  tokenOk w.method && (methodOf w.method).isSome &&
+  tokenOk w.target && (parseUrlPath w.target).isSome &&
+  tokenOk w.version && w.version.take 5 == ascii "HTTP/" && (verOf w.version).isSome &&
+  w.headers.all hdrOk && decide (w.body.length ≤ 2 ^ 64 - 2)
+
+/-- the request the handler must see: method, target, version, header map (a `std::map`: a
+repeated key keeps the last value), body -/
+def WireReq.toReq (w : WireReq) : Req :=
+  { method := (methodOf w.method).getD "kUnset"
+    url := (parseUrlPath w.target).getD {}
+    ver := (verOf w.version).getD "kUnset"
+    headers := (w.headers ++ [contentLengthHdr w]).foldl (fun m kv => mapInsert kv.1 kv.2 m) []
+    body := w.body }
+
+/-- what a pipeline delivers: the requests up to and including the first one that closes the
+connection, each with its "closes" flag and "length declared" = true -/
+def expectedReqs (markP : Req → Bool) : List WireReq → List (Req × Bool × Bool)
+  | [] => []
+  | w :: ws => if markP w.toReq then [(w.toReq, true, true)] else (w.toReq, false, true) :: expectedReqs markP ws
 
 end Tbox.C12
